@@ -1,11 +1,13 @@
 package ledger
 
 import (
+	"context"
 	"errors"
 	"fmt"
 	"math/big"
 	"sort"
 	"sync"
+	"sync/atomic"
 	"time"
 
 	"github.com/bartossh/Computantis/src/accountant"
@@ -22,6 +24,9 @@ type LongOpts struct {
 	MultiTip    bool // leave several tips at the moment of truncation
 	PostOps     int  // hostile operations after the last truncation
 	Tag         string
+	// Interrupt: the first truncation attempt on node 0 is cancelled in the middle of its persisting walk; the
+	// truncations that follow are attempted as usual (the code refuses them: recorded, not judged)
+	Interrupt bool
 }
 
 // grow runs the random driver without snapshotting every operation until node 0 holds `count` more live vertices
@@ -162,6 +167,11 @@ func RunLong(w *World, o LongOpts) error {
 				ot := w.NewTrx(racer, w.Users[1].Addr, spice.Melange{Currency: 9}, nil)
 				d.proposeOn(n, &ot, "racer's overdrawing tentative tip")
 			}
+			if o.Interrupt && k == 0 && n.Idx == 0 {
+				if w.TruncateInterrupted(n, d, 1+w.R.Intn(40)) {
+					d.grow(20+w.R.Intn(40), 0)
+				}
+			}
 			w.TruncateChecked(n, d, o.Race && n.Idx == 0)
 		}
 		// drain: the drainer sends everything it holds (as reported by node 0) back, and is re-funded a little later
@@ -300,6 +310,14 @@ func (w *World) TruncateChecked(n *Node, d *Driver, race bool) {
 			}
 			return
 		}
+		if n.Interrupted {
+			// after an interrupted truncation the code refuses every further one (a vertex it wants to store is in the
+			// storage already): recorded in DESIGN.md 5.4, not judged; a refused truncation must still change nothing
+			// but the storage copies
+			w.Res.Count("c07_truncations_refused_after_an_interrupted_one", 1)
+			w.checkInterruptedState(n, before, after, "refused truncation after an interrupted one")
+			return
+		}
 		w.Violate("C07", "truncate-failed", fmt.Sprintf("node %s: truncation of a ledger with %d live vertices failed: %v", n.Name, len(before.Live), err))
 		return
 	}
@@ -361,7 +379,7 @@ func (w *World) TruncateChecked(n *Node, d *Driver, race bool) {
 		if !live && !st {
 			w.Violate("C07", "vertex-lost", fmt.Sprintf("node %s: vertex %s left the live DAG during truncation without being checkpointed", n.Name, Hex(h)))
 		}
-		if live && st {
+		if live && after.Dup[h] && !n.Interrupted {
 			w.Violate("C07", "vertex-live-and-checkpointed", fmt.Sprintf("node %s: vertex %s is both live and checkpointed after truncation", n.Name, Hex(h)))
 		}
 	}
@@ -609,4 +627,99 @@ func isExtra(w *World, addr string) bool {
 		}
 	}
 	return false
+}
+
+// stateCtx is a context that reports cancellation once the vertices storage of the book holds at least `until`
+// vertices. The ledger looks at ctx.Done() once per visited ancestor; the storage is consulted through a hook that
+// does not take the ledger lock (the truncation under way holds it).
+type stateCtx struct {
+	context.Context
+	book   *accountant.AccountingBook
+	until  int
+	fired  atomic.Bool
+	closed chan struct{}
+	open   chan struct{}
+}
+
+func (c *stateCtx) Done() <-chan struct{} {
+	if c.fired.Load() {
+		return c.closed
+	}
+	if c.book.VerifStoredCount() >= c.until {
+		c.fired.Store(true)
+		return c.closed
+	}
+	return c.open
+}
+
+func (c *stateCtx) Err() error {
+	if c.fired.Load() {
+		return context.Canceled
+	}
+	return nil
+}
+
+// TruncateInterrupted runs the real truncation with a context that is cancelled as soon as m more vertices have been
+// written to the storage, i.e. in the middle of the persisting walk. The interrupted truncation must be transparent
+// like a completed one: nothing lost, balances and checkpoint funds unchanged. Returns whether it was interrupted.
+func (w *World) TruncateInterrupted(n *Node, d *Driver, m int) bool {
+	before := w.Observe(n, OpInfo{Kind: "milestone", OK: true})
+	base := n.Book.VerifStoredCount()
+	c := &stateCtx{Context: context.Background(), book: n.Book, until: base + m, closed: make(chan struct{}), open: make(chan struct{})}
+	close(c.closed)
+	n.Interrupted = true
+	err := n.Book.VerifTruncate(c)
+	w.Logf("%s.truncate interrupted after %d stored vertices (live %d, stored %d) => %v", n.Name, m, len(before.Live), len(before.Stored), errStr(err))
+	after := w.Observe(n, OpInfo{Kind: "truncate", OK: err == nil, Err: err})
+	w.EvalFor("C07", 1)
+	w.Res.Count("c07_interrupted_truncation_attempts", 1)
+	if !c.fired.Load() {
+		// fewer than m vertices were below the cut: the truncation ran to completion
+		n.Interrupted = len(after.Dup) > 0
+		w.Res.Count("c07_interrupted_truncation_attempts_that_completed", 1)
+		return false
+	}
+	w.NontrivFor("C07", fmt.Sprintf("interrupted/after%d/dups%d/err=%v", bucket(m), bucket(len(after.Dup)), err != nil))
+	w.checkInterruptedState(n, before, after, fmt.Sprintf("truncation interrupted after %d vertices were persisted", m))
+	return true
+}
+
+// checkInterruptedState: around a truncation that did not complete nothing observable may change: every vertex is
+// still there with the same content, the graph is the same, the checkpoint funds and every balance are the same.
+func (w *World) checkInterruptedState(n *Node, before, after *Snap, what string) {
+	for h, l := range before.Live {
+		a, ok := after.Live[h]
+		if !ok {
+			if sv, st := after.Stored[h]; st && Fingerprint(sv) == Fingerprint(&l.V) {
+				continue // checkpointed after all
+			}
+			w.Violate("C07", "vertex-lost", fmt.Sprintf("node %s: %s: vertex %s left the live DAG without being checkpointed", n.Name, what, Hex(h)))
+			continue
+		}
+		if Fingerprint(&a.V) != Fingerprint(&l.V) {
+			w.Violate("C07", "vertex-changed", fmt.Sprintf("node %s: %s: live vertex %s changed", n.Name, what, Hex(h)))
+		}
+	}
+	for h, v := range before.Stored {
+		sv, ok := after.Stored[h]
+		if !ok {
+			w.Violate("C07", "checkpointed-vertex-lost", fmt.Sprintf("node %s: %s: vertex %s was checkpointed before and is gone", n.Name, what, Hex(h)))
+		} else if Fingerprint(sv) != Fingerprint(v) {
+			w.Violate("C07", "checkpointed-vertex-changed", fmt.Sprintf("node %s: %s: checkpointed vertex %s changed", n.Name, what, Hex(h)))
+		}
+	}
+	w.checkStoredFunds(n, after)
+	var addrs []string
+	for _, a := range w.AllAddresses() {
+		if a != w.GenIss && !n.Tainted[a] {
+			addrs = append(addrs, a)
+		}
+	}
+	for _, a := range addrs {
+		rb, ra := RefTipSums(before, a), RefTipSums(after, a)
+		if len(before.Leaves) == len(after.Leaves) && fmt.Sprint(rb) != fmt.Sprint(ra) {
+			w.Violate("C07", "balance-changed/interrupted", fmt.Sprintf("node %s: %s: the per-tip balances of %s changed from %v to %v", n.Name, what, w.NameOf(a), rb, ra))
+		}
+		w.Res.Count("c07_balances_compared", 1)
+	}
 }
